@@ -457,6 +457,11 @@ int flatcc_builder_custom_reset(flatcc_builder_t *B, int set_defaults, int reduc
     B->ds_first = 0;
     B->nest_count = 0;
     B->nest_id = 0;
+    /* Buffer specific settings of a buffer that was not ended. */
+    B->block_align = 0;
+    B->buffer_flags = 0;
+    B->buffer_mark = 0;
+    B->identifier = 0;
     /* User frames left open by an abandoned operation (e.g. a failed JSON parse). */
     B->user_frame_offset = 0;
     B->user_frame_end = 0;
